@@ -91,6 +91,34 @@ def run(ctx):
                     elif tuple(w[1].dims) != tuple(want.dims) or not nan_equal(w[1].values, want.values):
                         ctx.report('property', f'ravel then wind does not reproduce a part of a variable ({pname} along {x})', pcase)
                 break
+        # a variable on the grid that also runs along a dimension of its own called 'index' (a list of stations, ensemble
+        # members ...): the flattened dimension then gets another name, and winding finds it by position
+        for (vname, kind, dims) in vars_:
+            if kind is None:
+                continue
+            G = d.spec['kinds'][kind]
+            full = ds[vname]
+            gsize = int(numpy.prod([ds.sizes[g] for g in G]))
+            for k_ in sorted({gsize, 3}):
+                arr = xarray.concat([full + 1000 * i_ for i_ in range(k_)], dim='index')
+                if len(ctx.samples) % 2 == 0:
+                    arr = arr.transpose(*(list(arr.dims[1:]) + ['index']))
+                with warnings.catch_warnings():
+                    warnings.simplefilter('ignore')
+                    r = attempt(ems.ravel, arr)
+                    w = attempt(ems.wind, r[1], grid_kind=enums[kind]) if r[0] == 'ok' else ('err', 'ravel failed')
+                icase = {'dataset': d.spec['label'], 'variable': vname, 'dims': list(arr.dims), 'own dimension': f'index (length {k_})'}
+                ctx.case((d.spec['label'], vname, 'own index dimension', k_), True)
+                ctx.count('variable with a dimension called index')
+                want = arr.transpose(*([y for y in arr.dims if y not in G] + list(G)))
+                if r[0] != 'ok':
+                    ctx.report('property', f'ravel refuses a variable with a dimension called index: {r[1]}', icase)
+                elif w[0] != 'ok':
+                    ctx.report('property', f'wind after ravel of a variable with a dimension called index failed: {w[1]}', icase)
+                elif tuple(w[1].dims) != tuple(want.dims) or not nan_equal(w[1].values, want.values):
+                    ctx.report('property', f'ravel then wind of a variable with a dimension called index gives dims {w[1].dims}, '
+                               f'expected {want.dims} with the original values', icase)
+            break
         for (vname, kind, dims) in vars_:
             base = ds[vname]
             perms = [tuple(base.dims)]
